@@ -384,6 +384,19 @@ def _watch():
     return _WATCH[0]
 
 
+def _decoy_kwargs(spec):
+    """constructor values of a scheduler whose real settings are assigned afterwards: none at
+    all, tight ones or loose ones (a deterministic function of the scenario)"""
+    which = (spec['hkey'] + spec['tkey'] + len(spec['members'])) % 3
+    if which == 0:
+        return {}
+    if which == 1:
+        return dict(jobs_window=1, timeout=0.001, shutdown_timeout=0.001,
+                    verbose=not spec['verbose'])
+    return dict(jobs_window=64, timeout=10**6, shutdown_timeout=None,
+                verbose=not spec['verbose'])
+
+
 def _sched_kwargs(spec):
     if spec.get('late_attrs'):
         return {}
@@ -430,8 +443,7 @@ class VScheduler(_SchedBehaviour, Scheduler):
         if spec.get('late_attrs'):
             # built with other values, which the assignments below replace before the run
             Scheduler.__init__(self, *jobs, label=spec.get('label', spec['id']),
-                               jobs_window=1, timeout=0.001, shutdown_timeout=0.001,
-                               verbose=not spec['verbose'], **extra)
+                               **_decoy_kwargs(spec), **extra)
         else:
             Scheduler.__init__(self, *jobs, critical=_flag(spec, spec['critical']),
                                forever=_flag(spec, spec['forever']),
@@ -444,8 +456,7 @@ class VPureScheduler(_SchedBehaviour, PureScheduler):
     def __init__(self, spec, *jobs):
         self._v_init(spec)
         if spec.get('late_attrs'):
-            PureScheduler.__init__(self, *jobs, jobs_window=1, timeout=0.001,
-                                   shutdown_timeout=0.001, verbose=not spec['verbose'])
+            PureScheduler.__init__(self, *jobs, **_decoy_kwargs(spec))
         else:
             PureScheduler.__init__(self, *jobs, **_sched_kwargs(spec))
         _late_attrs(self, spec)
